@@ -9,4 +9,5 @@ import GeoVerif.Ops.Hip
 import GeoVerif.Ops.Ramey
 import GeoVerif.Ops.ReadParam
 import GeoVerif.Ops.InputFile
+import GeoVerif.Ops.Proc
 /-! Everything the driver needs (import-free models + ops). -/
